@@ -22,14 +22,14 @@ RULE = ('fragments simulated from random references: both strands, paired and si
 ASSUMPTIONS = ['NLA: the site is the reference coordinate of the C of CATG; CHIC: ligated base -1 (forward) / +1 (reverse)',
                'with no_umi_cigar_processing only the mirror relation is checked (the option defines the absolute value away)',
                'cycle-shifted reads are simulated without soft clip']
-MIN_NONTRIVIAL = {'quick': 3000, 'thorough': 40000}
+MIN_NONTRIVIAL = {'quick': 3000, 'thorough': 150000}
 REQUIRED_MONITORS = ['obs:nla_fragments', 'obs:chic_fragments', 'obs:cycle_shift', 'obs:motif_broken', 'obs:clipped', 'mirror:fragments',
                      'cli:records_checked', 'obs:invert_strand', 'obs:single_end']
 SHARD_TIMEOUT = {'quick': 900, 'thorough': 5400}
 
 
 def gen_cases(tier, seed):
-    n = 240 if tier == 'quick' else 1500
+    n = 240 if tier == 'quick' else 12000
     return [{'i': i, 'seed': seed} for i in range(n)]
 
 
